@@ -319,6 +319,9 @@ def _sq_or_mul(x, y):
     return x * y
 
 
+FDIV = z3.Function("fdiv", z3.RealSort(), z3.RealSort(), z3.RealSort())    # real division, kept uninterpreted
+
+
 def arith(op, a, b, on_check, on_assume=None):
     """op in + - * / // % **.  on_check(name, cond) emits a safety obligation."""
     if op == "+" and isinstance(a.kind, KList) and isinstance(b.kind, KList):
@@ -348,8 +351,10 @@ def arith(op, a, b, on_check, on_assume=None):
             return vint(py_mod(x, y))
         if op == "**":
             if z3.is_int_value(y) and 0 <= y.as_long() <= 4:
-                r = z3.IntVal(1)
-                for _ in range(y.as_long()):
+                if y.as_long() == 0:
+                    return vint(1)
+                r = x
+                for _ in range(y.as_long() - 1):
                     r = r * x
                 return vint(r)
             raise OutOfSubset("int ** symbolic")
@@ -370,6 +375,7 @@ def arith(op, a, b, on_check, on_assume=None):
         q = z3.Real(uid("quot"))
         on_assume(implies(y != 0, q * y == x), str(q))
         on_assume(implies(y != 0, q == x / y), str(q))
+        on_assume(q == FDIV(x, y), str(q))      # the same quotient as an uninterpreted term (congruence reasoning)
         return vfloat(q, nan)
     if op == "//":
         on_check("ZeroDivisionError", y != 0)
@@ -380,8 +386,10 @@ def arith(op, a, b, on_check, on_assume=None):
         return vfloat(x - y * q, nan)
     if op == "**":
         if z3.is_rational_value(y) and y.denominator_as_long() == 1 and 0 <= y.numerator_as_long() <= 4:
-            r = z3.RealVal(1)
-            for _ in range(y.numerator_as_long()):
+            if y.numerator_as_long() == 0:
+                return vfloat(z3.RealVal(1), nan)
+            r = x
+            for _ in range(y.numerator_as_long() - 1):
                 r = r * x
             return vfloat(r, nan)
         from . import mathlib
